@@ -282,3 +282,27 @@ PROPS["C16"] = dict(
     assumptions=PUPPET_ASSUMPTIONS + ["an unlabelled stream or packet never begins with the label magic byte 244 (all message types are < 14)",
                                       "a second label header behind a valid, accepted one is a malformed payload (C13), not a labelling question"],
 )
+
+PROPS["C12"] = dict(
+    title="The wire pipeline round-trips every message under every configuration",
+    pkg="./props/c12",
+    level="exploration",
+    rule=("two real nodes A,B on a loss-free network; configuration cell drawn from protocol version 1-5 on either side (v1 = encryption version 0), no key or "
+          "a 16/24/32-byte key, compression on/off, label none/3 bytes/255 bytes, msgpack time format on either side, UDPBufferSize 512-65000, node names of "
+          "1-128 bytes incl. non-UTF-8, push/pull user state of nil/0/1/15/16/17/100/4095/4096/4097/65536 bytes (thorough up to 1 MiB) on either side, ack "
+          "payload 0-1000 bytes; 1-10 sends: SendBestEffort 0-8000 bytes, SendReliable 0..65536 bytes at block boundaries (thorough up to 4 MiB), gossip user "
+          "broadcasts, UpdateNode with 0-512 bytes of metadata; byte patterns incompressible / zeros / text / magic first byte (244, 0, 7, 9, 10, 12, 13). "
+          "Oracle: B's delegate receives exactly the multiset of user messages A was given, both sides' MergeRemoteState get the other's LocalState bytes, "
+          "NotifyPingComplete carries A's ack payload, B's view of A has A's name, metadata and version vector; and the independent wire mirror decodes every "
+          "packet and every stream write on the wire and recovers the same user payloads and user states. non-trivial = payload >= 1 byte in a cell with at "
+          "least two of encryption/compression/label active; distinct = distinct plans"),
+    tests=[
+        dict(name="rt", run="^TestRoundTrip$",
+             quick=dict(shards=16, checks=100, timeout=600),
+             thorough=dict(shards=16, checks=3000, timeout=3400)),
+    ],
+    assumptions=CLUSTER_ASSUMPTIONS + [
+        "metadata and gossip payloads are kept within the packet budget of the drawn UDPBufferSize/label/encryption (a message that cannot fit a packet is never gossiped)",
+        "an empty SendReliable payload may be delivered zero or one time (the stream path does not surface empty messages)",
+    ],
+)
